@@ -296,7 +296,8 @@ Definition run_c17 (a : list Z) : list Z :=
       match fh with
       | None => [-1]
       | Some f => let len := split_len (zn h) fh in
-                  nz (zn h - (len - 1) * f) :: repeat (nz f) (N.to_nat (len - 1))
+                  if (len =? 1)%N then [-1]       (* SplitView::single: one fragment takes the sequential path *)
+                  else nz (zn h - (len - 1) * f) :: repeat (nz f) (N.to_nat (len - 1))
       end
     end
   | _ => [-99]
